@@ -3,7 +3,7 @@ CONSTANTS
   KeyNames = {"k1"}
   Secrets = {"s1"}
   Algs = {"hmac-sha384-192"}
-  Fudges = {0, 2}
+  Fudges = {2}
   Skews <- MCSkews4
   Errors = {0}
   Kinds = {"stream"}
